@@ -11,51 +11,46 @@ UNIT_SAFETY = {
     "ring": "C09",
     "scan": "C19",
     "cbtime": "C20",
+    "fifo": "C07",
 }
 
 PROPS = {
     "C01": {
         "title": "Raw-data decoders are total",
         "units": ["trg", "adc", "chunk", "pwb", "pwbchunks"],
-        "kani_quick": ["trg_complete_80", "trg_other_lengths"],
-        "kani_thorough": [],
+        "kani_quick": ["trg_complete_80", "trg_other_lengths", "small_ids_complete", "alpha16_mac_complete", "pwb_readout_complete",
+                       "fifo_word_complete", "fifo_word_short", "scalers_block_lengths", "adc_len16", "adc_short_lengths"],
+        "kani_thorough": ["pwb_mac_complete", "pwb_device_complete", "name_adc16_4", "name_adc32_4", "name_padwing_4", "name_fixed_4",
+                          "name_main_event_4", "name_other_lengths", "adc_len164", "adc_len166", "adc_len165_162",
+                          "chunk_len28", "chunk_other_lengths", "pwb_0ch"],
+        "native_quick": ["c07_stream"],
         "level": "proof",
     },
     "C02": {
         "title": "ADC packet decoding is exact",
         "units": ["adc"],
-        "kani_quick": [],
-        "kani_thorough": [],
+        "kani_quick": ["adc_len16", "adc_short_lengths", "alpha16_mac_complete"],
+        "kani_thorough": ["adc_len164", "adc_len166", "adc_len165_162"],
         "level": "proof",
     },
     "C03": {
         "title": "PWB chunks are integrity-checked",
         "units": ["chunk"],
+        "kani_quick": [],
+        "kani_thorough": ["chunk_len28", "chunk_other_lengths", "pwb_device_complete"],
         "level": "proof",
     },
     "C04": {
         "title": "PWB packet reassembly is arrival-order independent and loss/duplication safe",
         "units": ["pwbchunks"],
+        "native_quick": ["c04_enum"],
         "level": "proof",
     },
     "C05": {
         "title": "PWB packet decoding is exact",
         "units": ["pwb"],
-        "level": "proof",
-    },
-    "C13": {
-        "title": "Reconstruction respects the detector's cylindrical symmetry (index layer)",
-        "units": ["ring"],
-        "level": "proof",
-    },
-    "C19": {
-        "title": "Vertex/scaler CSVs: unwrapped time (scan step only)",
-        "units": ["scan"],
-        "level": "proof",
-    },
-    "C20": {
-        "title": "Chronobox timestamps CSV never reports a wrong time (time arithmetic)",
-        "units": ["cbtime"],
+        "kani_quick": ["pwb_readout_complete"],
+        "kani_thorough": ["pwb_mac_complete", "pwb_0ch"],
         "level": "proof",
     },
     "C06": {
@@ -65,6 +60,51 @@ PROPS = {
         "kani_thorough": [],
         "kani_arbiter": {"C06.accept_iff": ["trg_complete_80", "trg_other_lengths"], "C06.fields": ["trg_complete_80"],
                          "C06.ordered": ["trg_complete_80"]},
+        "level": "proof",
+    },
+    "C07": {
+        "title": "Chronobox FIFO parsing is faithful, resumable and split-invariant",
+        "units": ["fifo"],
+        "kani_quick": ["fifo_word_complete", "fifo_word_short", "fifo_word_then_rest", "scalers_block_lengths"],
+        "native_quick": ["c07_stream"],
+        "level": "proof",
+    },
+    "C08": {
+        "title": "Channel identity is unambiguous",
+        "units": ["adc", "chunk", "pwb", "ring"],
+        "kani_quick": ["small_ids_complete", "alpha16_mac_complete", "pwb_readout_complete"],
+        "kani_thorough": ["pwb_mac_complete", "pwb_device_complete", "name_adc16_4", "name_adc32_4", "name_padwing_4", "name_fixed_4",
+                          "name_main_event_4"],
+        "native_quick": ["c08_tables"],
+        "level": "proof",
+    },
+    "C09": {
+        "title": "Assembling and reconstructing never crashes (integer panic sites only)",
+        "units": ["ring"],
+        "kani_quick": ["cal_wire_complete", "cal_pad_complete", "a_entry_complete"],
+        "level": "proof",
+    },
+    "C10": {
+        "title": "Event assembly: calibration expression only",
+        "units": [],
+        "kani_quick": ["cal_wire_complete", "cal_pad_complete"],
+        "level": "proof",
+    },
+    "C13": {
+        "title": "Reconstruction respects the detector's cylindrical symmetry (index layer)",
+        "units": ["ring"],
+        "kani_quick": ["a_entry_complete"],
+        "level": "proof",
+    },
+    "C19": {
+        "title": "Vertex/scaler CSVs: unwrapped time (scan step only)",
+        "units": ["scan"],
+        "level": "proof",
+    },
+    "C20": {
+        "title": "Chronobox timestamps CSV never reports a wrong time (time arithmetic, row split)",
+        "units": ["cbtime"],
+        "kani_quick": ["split_row_marker_chunks", "split_row_keeps_all_timestamps"],
         "level": "proof",
     },
 }
